@@ -7,6 +7,8 @@ from .. import common, fsrun
 SRC_CHANGED = b"int   a;\nvoid f(){return;}\n"
 SRC_FAIL = b"#endif\n"
 CFG_A = ""
+SRC_SAMELEN = b"char* p;\nchar* q;\n"
+CFG_SAMELEN = "sp_before_ptr_star=force\nsp_after_ptr_star=remove\n"
 CFG_B = "indent_with_tabs=0\nindent_columns=3\nsp_assign=force\n"
 
 
